@@ -77,7 +77,12 @@ def gen_plan(seed, tier):
   else:
     if r.random() < 0.3:
       desc["kind"] = "lowrank"
+  rc = substream(seed, "c09-caller")
+  if cls != "LFDA" and rc.random() < 0.4:
+    fits = fits + [dict(mode="seeded", seed=2)]
   plan = dict(run_seed=seed, cls=cls, dataset=desc, params=params, fits=fits)
+  if rc.random() < 0.5:
+    plan["same_arrays"] = True      # the caller passes the very same arrays to every fit of the run
   r2 = substream(seed, "c09-layout")
   r3 = substream(seed, "c09-faults")
   if cls == "Covariance" and r3.random() < 0.15:
@@ -164,6 +169,10 @@ def run_plan(plan):
   p = dict(plan["params"])
   shape = [cls, repr(sorted(p.items())), repr(plan["dataset"].get("class_sizes")),
            plan["dataset"]["kind"]]
+  caller = None
+  if plan.get("same_arrays"):
+    caller = (X.copy(), (D.chunks if cls == "RCA" else y).copy())
+    cov["same_arrays_for_every_fit"] += 1
   try:
     for i, ft in enumerate(plan["fits"]):
       world.EIGSH.mode, world.EIGSH.seed = ft["mode"], ft["seed"]
@@ -173,15 +182,17 @@ def run_plan(plan):
       pf = world.PinvhSeam(fail_first=bool(plan.get("pinvh_fault")))
       with world.observed() as wl, pf:
         try:
+          ax, ay = caller if caller is not None else (X.copy(), (D.chunks if cls == "RCA" else y).copy())
           if cls == "Covariance":
-            est.fit(X.copy())
-          elif cls == "RCA":
-            est.fit(X.copy(), D.chunks.copy())
+            est.fit(ax)
           else:
-            est.fit(X.copy(), y.copy())
+            est.fit(ax, ay)
           outcome = "ok"
         except Exception as e:
           outcome, exc = "exc:" + type(e).__name__, e
+      if not np.array_equal(ax, X) or not np.array_equal(ay, D.chunks if cls == "RCA" else y):
+        raise Violation("inputs_modified", "cls=%s,arg=%s" % (cls, "X" if not np.array_equal(ax, X) else "labels"),
+                        "fit #%d changed the caller's %s" % (i + 1, "points" if not np.array_equal(ax, X) else "labels / chunks"))
       ncalls, nforced = world.EIGSH.calls - c0, world.EIGSH.forced - f0
       nforced2 = world.EIGSH.eigh_forced - g0
       cov["eigh_forced_linalgerror"] += nforced2
